@@ -176,6 +176,8 @@ var httpHangs int
 //
 //	notifyslow     the consumer answers the notification after 5 s; 300 ms after the recharge request was sent
 //	               a well-formed update for the same subscriber is sent: it must be answered within 4 s
+//	notifydrop     the consumer records the notification and aborts the exchange without an answer (the CHF's client sees a
+//	               transport error); n = notifications the consumer got for the one recharge
 //	notifyreenter  the consumer sends an update for the same subscriber before it answers the notification;
 //	               that update must be answered within 4 s and the recharge request within 8 s
 //
@@ -185,11 +187,17 @@ func notifyCase(kind string) string {
 	store.set(probeSupi, 1, "100000", "2")
 	chfSupis[probeSupi] = true
 	fr := fullRequest(probeSupi, 0)
-	if kind == "notifyslow" {
+	switch kind {
+	case "notifyslow":
 		fr["notifyUri"] = sinkURL + "/n/slow/x"
-	} else {
+	case "notifydrop":
+		fr["notifyUri"] = sinkURL + "/n/drop/x"
+	default:
 		fr["notifyUri"] = sinkURL + "/n/reenter/x"
 	}
+	sinkMu.Lock()
+	nBefore := len(sinkGot)
+	sinkMu.Unlock()
 	fb, _ := json.Marshal(fr)
 	w0 := doHTTP("POST", ccPrefix+"/chargingdata", fb)
 	sid := ""
@@ -212,9 +220,10 @@ func notifyCase(kind string) string {
 	fuCh := make(chan string, 1)
 	sinkMu.Lock()
 	sinkSlow, sinkReenter = 0, nil
-	if kind == "notifyslow" {
+	switch kind {
+	case "notifyslow":
 		sinkSlow = 5 * time.Second
-	} else {
+	case "notifyreenter":
 		sinkReenter = func() { fuCh <- update() }
 	}
 	sinkMu.Unlock()
@@ -243,7 +252,16 @@ func notifyCase(kind string) string {
 			fu = "none" // the consumer was never notified
 		}
 	}
-	return fmt.Sprintf("st=%s fu=%s fu2=-", st, fu)
+	if kind == "notifydrop" {
+		// the follow-up comes after the recharge request has been answered; the notifications the consumer got are counted
+		// a moment later (a notification repeated in the background would still arrive)
+		fu = update()
+		time.Sleep(300 * time.Millisecond)
+	}
+	sinkMu.Lock()
+	n := len(sinkGot) - nBefore
+	sinkMu.Unlock()
+	return fmt.Sprintf("st=%s fu=%s fu2=- n=%d", st, fu, n)
 }
 
 func runHTTP(line string, t []string) string {
@@ -475,7 +493,7 @@ func runHTTP1(t []string) string {
 		case <-time.After(40 * time.Second):
 			done = false
 		}
-	case "notifyslow", "notifyreenter":
+	case "notifyslow", "notifyreenter", "notifydrop":
 		return notifyCase(kind)
 	default:
 		return "bad-op"
@@ -650,6 +668,8 @@ func genHTTP(o genOpts, w *bufio.Writer) {
 	// 6b. recharge notifications to a consumer that answers late / sends an update before it answers
 	emit("notifyslow", nil, "-")
 	emit("notifyreenter", nil, "-")
+	// … and to a consumer that has the notification and goes away without answering it
+	emit("notifydrop", nil, "-")
 	// 8. "any order of requests": every history of up to 3 requests over {valid create, refused create, one-time event, update,
 	//    release, update of an unknown reference, recharge} (thorough: up to 4), and longer random ones, each followed by a valid
 	//    create / update / release of the same subscriber
